@@ -266,6 +266,9 @@ func run(tier string, shard, nsh int, res *ev.Result) {
 		}
 	}
 	var jobs []func(lc *local)
+	if shard == 0 {
+		jobs = append(jobs, func(lc *local) { builtCheck(res, lc) })
+	}
 	for _, L := range lens {
 		L := L
 		jobs = append(jobs, func(lc *local) {
@@ -396,6 +399,13 @@ func run(tier string, shard, nsh int, res *ev.Result) {
 }
 
 func replay(check string, raw json.RawMessage, res *ev.Result) {
+	if check == "coil-built" {
+		var c BuiltCase
+		json.Unmarshal(raw, &c)
+		var lc local
+		evalBuilt(c, spec.NewDevice(spec.ImageHash, spec.BitImage), res, &lc)
+		return
+	}
 	var c Case
 	json.Unmarshal(raw, &c)
 	var lc local
